@@ -69,11 +69,15 @@ type C06Msg struct {
 
 type C06Scenario struct {
 	Seed uint64   `json:"seed"`
+	Ctr  uint64   `json:"ctr"` // frame counter both directions start at (set through the tagged hook)
 	Msgs []C06Msg `json:"msgs"`
 }
 
+var interestingCounters = []uint64{0, 0, 0, 1, 255, 256, 65535, 65536, 1<<32 - 2, 1<<32 - 1, 1 << 32, 1<<32 + 1, 1 << 40, 1<<63 - 1, 1 << 63, ^uint64(0) - 8}
+
 func genC06(rt *rapid.T) interface{} {
 	sc := &C06Scenario{Seed: rapid.Uint64().Draw(rt, "seed")}
+	sc.Ctr = rapid.SampledFrom(interestingCounters).Draw(rt, "ctr")
 	n := rapid.IntRange(1, 6).Draw(rt, "n")
 	lens := []int{0, 1, 2, 15, 16, 17, 1023, 1024, 1025, 2047, 2048, 2049, 3072, 4096, 4097, 5000, 10240}
 	for i := 0; i < n; i++ {
@@ -103,7 +107,14 @@ func runC06(t *testing.T, sci interface{}) *Outcome {
 		return o
 	}
 	a2c, c2a := ref.SessionKeys(shared)
-	var ctrA2C, ctrC2A uint64
+	ctrA2C, ctrC2A := sc.Ctr, sc.Ctr
+	if sc.Ctr != 0 {
+		if !hccrypto.VerifSetCounters(acc, sc.Ctr, sc.Ctr) {
+			o.Harness = "VerifSetCounters: not a secure session"
+			return o
+		}
+		o.Stats["probe.high_counter"]++
+	}
 	fail := func(sig, f string, a ...interface{}) *Outcome {
 		o.Violation = "C06:" + sig
 		o.Sig = sig
@@ -170,7 +181,7 @@ func fixedC06(t *testing.T, emit func(sc interface{}, o *Outcome)) {
 		}
 		for mode := 0; mode <= 4; mode++ {
 			for side := 0; side <= 1; side++ {
-				sc := &C06Scenario{Seed: uint64(l*16 + mode*2 + side), Msgs: []C06Msg{{Len: l, Enc: mode, Dec: mode, Side: side}, {Len: 3, Enc: 0, Dec: 0, Side: side}}}
+				sc := &C06Scenario{Seed: uint64(l*16 + mode*2 + side), Ctr: interestingCounters[(l+mode)%len(interestingCounters)], Msgs: []C06Msg{{Len: l, Enc: mode, Dec: mode, Side: side}, {Len: 3, Enc: 0, Dec: 0, Side: side}}}
 				emit(sc, runC06(t, sc))
 			}
 		}
